@@ -1,5 +1,6 @@
 import Fabio.Generated.C20
 import Fabio.Model.C20Spec
+import Fabio.Props.C20Xlate
 /-!
 CHANGE DETECTORS for C20 (`"pins_module"` in checks/C20.json): the shape of sequential, deterministic code whose
 input/output behaviour a correspondence stream compares with the model on every run. When one of these stops
@@ -82,5 +83,28 @@ Was an obligation while no C20 stream ran `ServeHTTP`; `c20.serve` now does, rec
 theorem call_site_pinned :
     Generated.C20.eventSiteResponseIsLiteral = true ∧
     Generated.C20.eventSiteStatusAndSizeFromHandlerWriter = true := by decide
+
+/-! ### the translated formatters (`Props/C20Xlate.lean`)
+
+Every function named in `tools/factgen/c20.go` is inside the translated subset, and the definitions regenerated from
+the current source equal the hand-written model for every input (proofs in `Props/C20Xlate.lean`, restated here so
+that they are audited and counted with the other change detectors). Streams that carry the tie when one of them
+stops building: `c20.uint16` (exhaustive), `c20.i32toa` / `c20.i32block` / `c20.i32sweep`, `c20.uuid`,
+`c20.hostport`, `c20.atoi`, `c20.render`. -/
+
+theorem xlate_everything_translated : Generated.C20.xlateNotes = [] := by decide
+
+theorem xlate_uint16base16 (n : UInt16) :
+    C20Xlate.obsX (Generated.C20.XUint16.run { p0 := n }) = .ok (Spec.hex4 n.toNat) := C20Xlate.xuint16_eq_hex4 n
+
+theorem xlate_i32toa (n : Int) (hlo : -2^31 ≤ n) (hhi : n < 2^31) :
+    C20Xlate.obsX (Generated.C20.XI32toa.run { p0 := n }) = .ok (Spec.itoa n) := C20Xlate.xi32toa_eq_decimal n hlo hhi
+
+theorem xlate_uuid_tostring (u : List UInt8) (h : u.length = 24) :
+    C20Xlate.obsX (Generated.C20.XUuid.run { p0 := u }) = .ok (Spec.uuidText u) := C20Xlate.xuuid_format u h
+
+theorem xlate_hostport (b : List UInt8) :
+    ∃ h p, C20Xlate.obsHP (Generated.C20.XHostport.run { p0 := b }) = .ok (h, p) ∧ Spec.hostportOk (C20Xlate.chars b) h p = true :=
+  C20Xlate.xhostport_spec b
 
 end Fabio.Props.C20Pins
